@@ -282,6 +282,54 @@ def main(pid="C16", rep=None, finish=True):
             finally:
                 net.close()
         rep.add("random_graphs", m)
+        # overlapping fetches on ONE client object (as the reverse proxy uses its client): each must still end as its own
+        # reference walk says and open no more connections than its own bound
+        ov = 0
+        for _ in range(1500 if thorough else 300):
+            k = rnd.randint(3, 6)
+            us = urls[:k]
+            G = {}
+            for u in us:
+                kind = rnd.choice(["final", "redirect", "redirect", "redirect", "nongemini"])
+                G[u] = {"k": kind, "to": rnd.choice(us) if kind == "redirect" else "-"}
+            mx = rnd.randint(0, 4)
+            s1, s2 = rnd.choice(us), rnd.choice(us)
+            net = Net(G, rnd, tofu=False)
+            try:
+                cl = net.client(mx)
+
+                async def both():
+                    return await asyncio.gather(cl.get(REAL[s1]), cl.get(REAL[s2]), return_exceptions=True)
+                task = net.loop.create_task(both())
+                for _ in range(400):
+                    net.loop.run_idle()
+                    if task.done() or not net.loop.advance_to_next_timer():
+                        break
+                if not task.done():
+                    task.cancel()
+                    net.loop.run_idle()
+                    raise tlc.TLCError("overlapping fetches did not finish")
+                ov += 1
+                total_bound = 0
+                for start, r_ in zip((s1, s2), task.result()):
+                    want, wc = walk(G, start, mx)
+                    total_bound += wc
+                    if isinstance(r_, Exception):
+                        msg = str(r_)
+                        got = "error:loop" if "loop detected" in msg else "error:toomany" if "Maximum redirects" in msg else \
+                            "error:noredirecturl" if "missing URL" in msg else "error:other"
+                    else:
+                        got = "redirect-returned" if 30 <= r_.status <= 39 else "final"
+                    if got != want:
+                        rep.violation({"formula": "Correct", "overlapping": True},
+                                      "two overlapping get() calls on one client: fetch of %s ended %s, its own redirect graph says %s (graph %s, max %d, other fetch %s)" % (
+                                          start, got, want, {k_: (v["k"], v["to"]) for k_, v in G.items()}, mx, s2 if start == s1 else s1), None)
+                if len(net.conns) > total_bound:
+                    rep.violation({"formula": "Bounded", "overlapping": True},
+                                  "two overlapping get() calls opened %d connections, their bounds allow %d" % (len(net.conns), total_bound), None)
+            finally:
+                net.close()
+        rep.add("overlapping_fetch_pairs", ov)
         rep.add("traces_validated_against_impl", m)
         rep.assume("peers are scripted transports; URLs are opaque distinct strings in the model (u2 differs from u1 only in the query, "
                    "u4 only in the port, u6 only in a trailing slash)")
